@@ -429,68 +429,111 @@ func c18InferTarget(r *RNG, kind string) string {
 
 func (c *Ctx) c18Limit() {
 	nfiles := c.N(32, 120)
-	perFile := c.N(50, 120)
-	scratch := filepath.Join(c.WorkDir, "render")
 	bt := c.NewBatch()
-	defer bt.Flush()
-	idx := 0
-	for fi := 0; fi < nfiles; fi++ {
-		r := c.Rng("limit", fi)
-		kind := c18Kinds[fi%len(c18Kinds)]
-		infer := fi%3 == 2
-		var f c18File
-		var argv []string
-		files := map[string][]byte{}
-		modes := map[string]os.FileMode{}
-		others := map[string]string{}
-		if infer {
-			f = c18File{Name: "target.knut", Old: []byte(c18InferTarget(r, kind)), Mode: Pick(r, []os.FileMode{0o644, 0o600}), Kind: "infer-" + kind}
-			argv = []string{"infer", "-i", "-t", "training.knut", "target.knut"}
-			f.New = c.c18Render(scratch, func(t string) []string { return []string{"infer", "-i", "-t", "training.knut", t} }, f.Name, f.Old,
-				map[string][]byte{"training.knut": []byte(c18Training)})
-			files["training.knut"] = []byte(c18Training)
-			modes["training.knut"] = 0o644
-			others["training.knut"] = fieldOf([]byte(c18Training), 0o644)
-		} else {
-			f = c.c18GenFile(r, scratch, "journal.knut", kind)
-			argv = []string{"format", f.Name}
-		}
-		files[f.Name] = f.Old
-		modes[f.Name] = f.Mode
-		// every byte offset for small files in the thorough tier
-		all := c.Thorough() && len(f.New) <= 700
-		limits := c18Limits(r, len(f.New), len(f.Old), perFile, all)
-		originals := []string{f.Name, "training.knut"}
-		for _, k := range limits {
-			i := idx
-			idx++
-			if !c.Want("limit", i) {
+	if !c.Replay || c.OnlyStr == "limit" {
+		for fi := 0; fi < nfiles; fi++ {
+			if c.Replay && c.OnlyIndex/100000 != fi {
 				continue
 			}
-			dir := filepath.Join(c.WorkDir, "limit")
-			pr := c.c18Exec(c18Run{Dir: dir, Files: files, Modes: modes, Argv: argv, Limit: k})
-			obs := c18Observe(dir, f.Name, originals)
-			in := map[string]any{"argv": argv, "file_kind": f.Kind, "mode": fmt.Sprintf("%o", f.Mode), "RLIMIT_FSIZE": k, "old": string(f.Old), "new_len": len(f.New), "parses": f.New != nil}
-			cut := "fits"
-			if f.New != nil && k < len(f.New) {
-				cut = "cut"
-			}
-			c.Class(fmt.Sprintf("limit/%s/%s/%s/k%s", argv[0], f.Kind, cut, nbucket(k/64)))
-			if i < 2 {
-				c.Sample(map[string]any{"stream": "limit", "input": map[string]any{"argv": argv, "RLIMIT_FSIZE": k, "file_kind": f.Kind, "new_len": len(f.New)}, "exit": pr.Exit, "stderr": clip(pr.Stderr)})
-			}
-			c.c18Check(bt, "limit", i, in, f, f.Mode, pr, obs, k, [][2]string{{"-", "0"}}, others, originals)
-			// no stray temp file after a run that was not killed
-			names := strings.Join(obs.Names, ",")
-			var before []string
-			for n := range files {
-				before = append(before, n)
-			}
-			sort.Strings(before)
-			bt.Add(func(mon string) {
-				c.Monitor("limit", i, "no stray file (sameNames)", in, mon == "ok", "directory after the run: "+names)
-			}, "c18names", strings.Join(before, ","), names)
+			c.c18LimitFile(bt, "limit", fi, nil)
 		}
+		bt.Flush()
+	}
+	// directed search: every limit around the ones on which code and model (or the predicate) disagree
+	type sus struct{ fi, k int }
+	var suspects []sus
+	seen := map[int]bool{}
+	if c.Replay && c.OnlyStr == "limit-directed" {
+		suspects = append(suspects, sus{c.OnlyIndex / 100000, c.OnlyIndex % 100000})
+	} else if !c.Replay {
+		for _, f := range c.Findings {
+			if f.Stream == "limit" && !seen[f.Index] && len(suspects) < 6 {
+				seen[f.Index] = true
+				suspects = append(suspects, sus{f.Index / 100000, f.Index % 100000})
+			}
+		}
+	}
+	for _, su := range suspects {
+		var ks []int
+		if c.Replay {
+			ks = []int{su.k}
+		} else {
+			for k := su.k - 24; k <= su.k+24; k++ {
+				if k >= 0 {
+					ks = append(ks, k)
+				}
+			}
+		}
+		c.c18LimitFile(bt, "limit-directed", su.fi, ks)
+	}
+	if len(suspects) > 0 && !c.Replay {
+		c.Notes = append(c.Notes, fmt.Sprintf("directed search: every size limit within 24 bytes of %d limits on which code and model differ", len(suspects)))
+	}
+	bt.Flush()
+}
+
+// c18LimitFile runs file number fi of the limit stream under the given limits (nil: the stream's own selection).
+// The case index is fi*100000 + k.
+func (c *Ctx) c18LimitFile(bt *Batch, stream string, fi int, limits []int) {
+	perFile := c.N(50, 120)
+	scratch := filepath.Join(c.WorkDir, "render")
+	r := c.Rng("limit", fi)
+	kind := c18Kinds[fi%len(c18Kinds)]
+	infer := fi%3 == 2
+	var f c18File
+	var argv []string
+	files := map[string][]byte{}
+	modes := map[string]os.FileMode{}
+	others := map[string]string{}
+	if infer {
+		f = c18File{Name: "target.knut", Old: []byte(c18InferTarget(r, kind)), Mode: Pick(r, []os.FileMode{0o644, 0o600}), Kind: "infer-" + kind}
+		argv = []string{"infer", "-i", "-t", "training.knut", "target.knut"}
+		f.New = c.c18Render(scratch, func(t string) []string { return []string{"infer", "-i", "-t", "training.knut", t} }, f.Name, f.Old,
+			map[string][]byte{"training.knut": []byte(c18Training)})
+		files["training.knut"] = []byte(c18Training)
+		modes["training.knut"] = 0o644
+		others["training.knut"] = fieldOf([]byte(c18Training), 0o644)
+	} else {
+		f = c.c18GenFile(r, scratch, "journal.knut", kind)
+		argv = []string{"format", f.Name}
+	}
+	files[f.Name] = f.Old
+	modes[f.Name] = f.Mode
+	// every byte offset for small files in the thorough tier
+	all := c.Thorough() && len(f.New) <= 700
+	own := c18Limits(r, len(f.New), len(f.Old), perFile, all)
+	if limits == nil {
+		limits = own
+	}
+	originals := []string{f.Name, "training.knut"}
+	for _, k := range limits {
+		i := fi*100000 + k
+		if k >= 100000 || !c.Want(stream, i) {
+			continue
+		}
+		dir := filepath.Join(c.WorkDir, "limit")
+		pr := c.c18Exec(c18Run{Dir: dir, Files: files, Modes: modes, Argv: argv, Limit: k})
+		obs := c18Observe(dir, f.Name, originals)
+		in := map[string]any{"argv": argv, "file_kind": f.Kind, "mode": fmt.Sprintf("%o", f.Mode), "RLIMIT_FSIZE": k, "old": string(f.Old), "new_len": len(f.New), "parses": f.New != nil}
+		cut := "fits"
+		if f.New != nil && k < len(f.New) {
+			cut = "cut"
+		}
+		c.Class(fmt.Sprintf("%s/%s/%s/%s/k%s", stream, argv[0], f.Kind, cut, nbucket(k/64)))
+		if fi == 0 && k < 2 {
+			c.Sample(map[string]any{"stream": stream, "input": map[string]any{"argv": argv, "RLIMIT_FSIZE": k, "file_kind": f.Kind, "new_len": len(f.New)}, "exit": pr.Exit, "stderr": clip(pr.Stderr)})
+		}
+		c.c18Check(bt, stream, i, in, f, f.Mode, pr, obs, k, [][2]string{{"-", "0"}}, others, originals)
+		// no stray temp file after a run that was not killed
+		names := strings.Join(obs.Names, ",")
+		var before []string
+		for n := range files {
+			before = append(before, n)
+		}
+		sort.Strings(before)
+		bt.Add(func(mon string) {
+			c.Monitor(stream, i, "no stray file (sameNames)", in, mon == "ok", "directory after the run: "+names)
+		}, "c18names", strings.Join(before, ","), names)
 	}
 }
 
@@ -602,6 +645,7 @@ func (c *Ctx) c18Perm() {
 		return
 	}
 	for i := 0; i < n; i++ {
+		i := i
 		if !c.Want("perm", i) {
 			continue
 		}
@@ -653,6 +697,7 @@ func (c *Ctx) c18Multi() {
 	bt := c.NewBatch()
 	defer bt.Flush()
 	for i := 0; i < n; i++ {
+		i := i
 		if !c.Want("multi", i) {
 			continue
 		}
@@ -884,7 +929,7 @@ func runC18(c *Ctx) {
 		f    func()
 	}{{"facts", c.c18Facts}, {"limit", c.c18Limit}, {"inject", c.c18InjectStream}, {"perm", c.c18Perm}, {"multi", c.c18Multi}}
 	for _, s := range streams {
-		if c.Replay && c.OnlyStr != s.name {
+		if c.Replay && c.OnlyStr != s.name && !(s.name == "limit" && c.OnlyStr == "limit-directed") {
 			continue
 		}
 		t0 := time.Now()
